@@ -42,7 +42,7 @@ from pulser import Register, Sequence
 
 PROP = "C08"
 TARGETS = ["PulserModel.Param", "Proofs.Param", "Proofs.ParamStore", "Proofs.ParamReplay", "Properties.C08"]
-COUNTS = {"quick": 600, "thorough": 12000}
+COUNTS = {"quick": 600, "thorough": 8000}      # (thorough about 10 min)
 NBUILDS = 4
 TOL = 1e-9
 
